@@ -18,7 +18,7 @@ RULE = ("case = history of 4-12 table operations (create from columns, insert on
 ASSUMPTIONS = ["index columns hold unique values before an index is created, as the statement requires", "values are compared with Klong match (an integer column widened to real still matches)",
                "a one-row result of db(sql) may come back squeezed to a vector (documented use of squeeze)"]
 MIN_COUNTS = {"quick": {"nontrivial": 350, "observations_compared": 1800, "inserts": 1500, "index_operations": 250, "sql_queries": 400},
-              "thorough": {"nontrivial": 15000, "observations_compared": 90000, "inserts": 50000, "index_operations": 10000, "sql_queries": 12000}}
+              "thorough": {"nontrivial": 7000, "observations_compared": 40000, "inserts": 25000, "index_operations": 5000, "sql_queries": 6000}}
 CASE_TIMEOUT = 300
 
 COLSETS = [
@@ -63,6 +63,7 @@ def _gen(rng):
     n = rng.randint(4, 12)
     rows = list(ops[0][2])
     indexed = False
+    index_cols = None
     i = 10
     extra = 0
     base_fresh = fresh_row
@@ -75,9 +76,12 @@ def _gen(rng):
         i += 1
         if r < 0.28:
             if rows and rng.random() < 0.35:
-                row = fresh_row(i, existing_key=rng.choice(rows)[keycol])      # re-insert an existing key
+                old = rng.choice(rows)
+                row = fresh_row(i, existing_key=old[keycol])      # re-insert an existing key
                 if not indexed:
                     continue              # on an unindexed table that would break key uniqueness for a later index
+                if index_cols == [0, 1]:
+                    row[1] = old[1]       # the key of a two-column index: otherwise column 0 alone would stop being unique for a later index
             else:
                 row = fresh_row(i)
             ops.append(["insert", row])
@@ -85,7 +89,10 @@ def _gen(rng):
         elif r < 0.40:
             batch = [fresh_row(i * 10 + j) for j in range(rng.randint(2, 4))]
             if indexed and rows and rng.random() < 0.4:
-                batch[0] = fresh_row(i, existing_key=rng.choice(rows)[keycol])
+                old = rng.choice(rows)
+                batch[0] = fresh_row(i, existing_key=old[keycol])
+                if index_cols == [0, 1]:
+                    batch[0][1] = old[1]
             ops.append(["insertb", batch])
             rows += batch
         elif r < 0.55:
@@ -95,7 +102,8 @@ def _gen(rng):
         elif r < 0.75:
             if not indexed:
                 two = len(cols) > 2 and rng.random() < 0.3
-                ops.append(["index", [0, 1] if two else [0]])
+                index_cols = [0, 1] if two else [0]
+                ops.append(["index", index_cols])
                 indexed = True
             else:
                 ops.append(["rindex"])
@@ -114,7 +122,7 @@ def _gen(rng):
 
 def cases(tier, seed):
     rng = random.Random(19000 + seed)
-    n = 600 if tier == "quick" else 25000
+    n = 600 if tier == "quick" else 12000
     return [{"ops": _gen(rng)} for _ in range(n)]
 
 
